@@ -447,6 +447,14 @@ def run_property(prop, tier, *, jobs=None, only=None, verbose=False,
                 distinct_obligation_keys=len(by_key),
                 structural_instances=len(normal),
                 paths_explored=paths_total,
+                premise_covers=dict(
+                    note="vacuity guard: paths carrying obligations whose "
+                         "assumptions+branch conditions were checked "
+                         "satisfiable; a contradictory one is reported "
+                         "undecided",
+                    checked=sum(r.get("covers", 0) for r in normal),
+                    solver_unknown=sum(r.get("cover_unknown", 0)
+                                       for r in normal)),
                 programs=len(normal),
                 disagreements_checked=len(violations),
                 evaluations=paths_total,
